@@ -35,18 +35,18 @@ def enum():
 def plan(tier, seed):
     n = len(enum())
     if tier == 'quick':
-        return {'n': n + 2500, 'budget_s': 40, 'min_evals': 2000,
+        return {'n': 2 * n, 'budget_s': 40, 'min_evals': 2000,
                 'floors': {'failure_scenarios': 2000, 'built_modules': 2000, 'nowrite_judged': 800,
                            'ignore_judged': 500}}
-    return {'n': n + 120000, 'budget_s': 600, 'min_evals': 30000,
+    return {'n': 2 * n + 120000, 'budget_s': 600, 'min_evals': 30000,
             'floors': {'failure_scenarios': 30000, 'built_modules': 30000, 'nowrite_judged': 10000,
                        'ignore_judged': 8000}}
 
 
 def run_case(idx, rng, tier, res):
     cases = enum()
-    if idx < len(cases):
-        gname, victim, fi, oi, withb = cases[idx]
+    if idx % 2 == 0 and idx // 2 < len(cases):      # phases interleaved: a budget cut trims both alike
+        gname, victim, fi, oi, withb = cases[idx // 2]
         mods, g = orch.GRAPHS[gname]
         requested = [mods[0]] if gname != 'two_roots' else mods[:2]
         scn = orch.new_scenario(mods, g, requested)
